@@ -177,3 +177,140 @@ Example C16_session_example_by_theorem : forall j closable fti,
                                 :: obj_wire no_rep no_rsrc exs_cfg exs_m 2 closable true ex_content fti)) ctx0 in
   session_meta_delivered exs_cfg false exs_now exs_m ex_content exs_rcfg r cx.
 Proof. exact exs_late_by_theorem. Qed.
+
+From FluteV Require Import Proofs.C02RS Proofs.C02SessionRS Proofs.C01RS.
+(* ===== block: C01RS ===== *)
+(* ---------------- Reed-Solomon GF(2^8): FEC 5 (RS28) and FEC 129 (RS28US), Proofs/C01RS.v ----------------
+   The object-level late-join theorems above for the two Reed-Solomon schemes: same sender, wire bridge [to_apkt_rs],
+   receiver and premises as C01_clean_channel_rs (Properties/C01.v) - in particular the decoder oracle is MDS for
+   [rx_rep rep c content], the receiver-side view of the sender's encoder, and rs_mem_need oti L <= max.  Every
+   transfer of the model emits the same list [wire_pkts_rs] (source and repair symbols interleaved by the window); a
+   receiver joining at ANY packet offset j of a carousel cycle gets the rest of it and one whole further cycle: the
+   object is Completed, the writer got open, writes = content, one complete.  Here the oracle matters: a block may be
+   decoded from the repair symbols of the first cycle's tail before its source symbols arrive. *)
+Theorem C16_late_join_delivers_rs :
+  forall rep raptor_src c content oti E toi max fid files inst md5,
+  is_rs (c_fec c) = true -> filedesc_accepts c = true -> c_tlen c = lenN content -> 0 < c_tlen c ->
+  (1 <= c_window c)%nat -> rep_len_ok rep ->
+  c_e c < 65536 ->
+  oti_matches_rs c oti -> fdt_entry_for files inst toi oti (c_tlen c) md5 ->
+  writer_accepts E toi -> writes_succeed E toi -> md5_good E content md5 ->
+  rs_oracle_mds E oti content (rx_rep rep c content) toi ->
+  rs_mem_need oti (c_tlen c) <= max -> nb_blocks_of oti (c_tlen c) <= 4097 ->
+  c_closable c = false ->
+  forall j : nat,
+  let pkts := wire_pkts_rs rep raptor_src c content toi in
+  delivered E fid files inst toi max content (skipn j pkts ++ pkts).
+Proof. exact rs_late_join_delivered. Qed.
+Print Assumptions C16_late_join_delivers_rs.
+
+(* ANY list of genuine packets (source or repair) without the close-object flag that contains every packet of one
+   transfer - any reordering, any duplication, any number of partial or whole cycles around them *)
+Theorem C16_any_superset_of_a_cycle_delivers_rs :
+  forall rep raptor_src c content oti E toi max fid files inst md5,
+  is_rs (c_fec c) = true -> filedesc_accepts c = true -> c_tlen c = lenN content -> 0 < c_tlen c ->
+  (1 <= c_window c)%nat -> rep_len_ok rep ->
+  c_e c < 65536 ->
+  oti_matches_rs c oti -> fdt_entry_for files inst toi oti (c_tlen c) md5 ->
+  writer_accepts E toi -> writes_succeed E toi -> md5_good E content md5 ->
+  rs_oracle_mds E oti content (rx_rep rep c content) toi ->
+  rs_mem_need oti (c_tlen c) <= max -> nb_blocks_of oti (c_tlen c) <= 4097 ->
+  forall l, Forall (fun q => rs_genuine_pkt oti content (rx_rep rep c content) q = true) l ->
+            Forall (fun q => a_close_obj q = false) l ->
+            incl (wire_pkts_rs rep raptor_src c content toi) l ->
+  delivered E fid files inst toi max content l.
+Proof. exact rs_superset_delivered. Qed.
+Print Assumptions C16_any_superset_of_a_cycle_delivers_rs.
+
+(* a suffix of a cycle (any genuine flag-free packets), then a whole LAST transfer *)
+Theorem C16_late_join_then_last_transfer_rs :
+  forall rep raptor_src c content oti E toi max fid files inst md5,
+  is_rs (c_fec c) = true -> filedesc_accepts c = true -> c_tlen c = lenN content -> 0 < c_tlen c ->
+  (1 <= c_window c)%nat -> rep_len_ok rep ->
+  c_e c < 65536 ->
+  oti_matches_rs c oti -> fdt_entry_for files inst toi oti (c_tlen c) md5 ->
+  writer_accepts E toi -> writes_succeed E toi -> md5_good E content md5 ->
+  rs_oracle_mds E oti content (rx_rep rep c content) toi ->
+  rs_mem_need oti (c_tlen c) <= max -> nb_blocks_of oti (c_tlen c) <= 4097 ->
+  forall pre, Forall (fun q => rs_genuine_pkt oti content (rx_rep rep c content) q = true) pre ->
+              Forall (fun q => a_close_obj q = false) pre ->
+  delivered E fid files inst toi max content (pre ++ wire_pkts_rs rep raptor_src c content toi).
+Proof. exact rs_prefix_then_transfer_delivered. Qed.
+Print Assumptions C16_late_join_then_last_transfer_rs.
+
+(* non-vacuity, XOR toy code on both sides: the 5-byte object, FEC 5, E = 2, B = 2, parity 1, carousel with two
+   interleaved blocks (cycle = (0,0) (1,0) (0,1) (1,1) (0,2)): every join offset is delivered, by computation and by
+   the theorem; the suffix from offset 3 alone is not *)
+Example C16_example_late_join_rs :
+  let w := wire_pkts_rs xor_rep no_rsrc (exr_cfg RS28 2 false) exr_content 7 in
+  map (rs_pid exr_oti) w = [(0, 0); (1, 0); (0, 1); (1, 1); (0, 2)]
+  /\ forallb (fun j => match summary 7 (receive env_xor 1 exr_files None 7 1000 (skipn j w ++ w)) with
+                       | (Completed, [CallOpen true; CallWrite [1; 2; 3; 4] true; CallWrite [5] true; CallComplete]) => true
+                       | _ => false end) [0; 1; 2; 3; 4; 5; 6]%nat = true
+  /\ summary 7 (receive env_xor 1 exr_files None 7 1000 (skipn 3 w)) = (Receiving, [CallOpen true]).
+Proof. vm_compute. repeat split. Qed.
+
+Example C16_example_rs_by_theorem : forall j,
+  let w := wire_pkts_rs xor_rep no_rsrc (exr_cfg RS28 2 false) exr_content 7 in
+  delivered env_xor 1 exr_files None 7 1000 exr_content (skipn j w ++ w).
+Proof. exact exr_late_join_by_theorem. Qed.
+
+(* ---------------- session level (setting of C01_session_clean_channel_rs, Properties/C01.v) ----------------
+   The receiver joins late: the packets from ANY offset j of a carousel transfer of the Reed-Solomon object (no
+   close-object flag; EXT_FTI on every packet: they are decoded - the decoder oracle is consulted - without writer),
+   then the FDT packet with the instance the sender model publishes, then one whole further transfer. *)
+Theorem C16_session_late_join_rs :
+  forall rep raptor_src cfg complete now m content E rcfg nowr id sct,
+  sender_ok_rs cfg now m content -> doc_fits cfg complete now m -> rep_len_ok rep ->
+  receiver_ok_rs rep E rcfg nowr sct cfg now m content ->
+  forall (window1 : nat) (debug1 : bool) (j window : nat) (closable debug fti : bool),
+  (1 <= window1)%nat -> (1 <= window)%nat ->
+  let '(_, r, cx) := recv_run E fdt_oracle rcfg recv0
+                       (map (fun p => RvPush p nowr)
+                            (skipn j (obj_wire_rs rep raptor_src cfg m window1 false debug1 content true)
+                             ++ sess_fdt_pkt cfg complete now m id sct
+                                :: obj_wire_rs rep raptor_src cfg m window closable debug content fti)) ctx0 in
+  session_meta_delivered_rs cfg complete now m content rcfg r cx.
+Proof. exact rs_session_late_join. Qed.
+Print Assumptions C16_session_late_join_rs.
+
+(* more generally: ANY genuine packets of the object (source or repair symbols) with EXT_FTI, no EXT_CENC and no
+   close-object flag before the FDT packet *)
+Theorem C16_session_late_join_general_rs :
+  forall rep raptor_src cfg complete now m content E rcfg nowr id sct,
+  sender_ok_rs cfg now m content -> doc_fits cfg complete now m -> rep_len_ok rep ->
+  receiver_ok_rs rep E rcfg nowr sct cfg now m content ->
+  forall (window : nat) (closable debug fti : bool) (pre : list apkt), (1 <= window)%nat ->
+  Forall (fun p => a_toi p = m_toi m) pre ->
+  Forall (fun p => rs_genuine_pkt (obj_roti_rs cfg m) content (obj_rep_rs rep cfg m content) p = true) pre ->
+  Forall (fun p => a_oti p = Some (obj_roti_rs cfg m, lenN_ content) /\ a_cenc p = None /\ a_close_obj p = false) pre ->
+  let '(_, r, cx) := recv_run E fdt_oracle rcfg recv0
+                       (map (fun p => RvPush p nowr)
+                            (pre ++ sess_fdt_pkt cfg complete now m id sct
+                                    :: obj_wire_rs rep raptor_src cfg m window closable debug content fti)) ctx0 in
+  session_meta_delivered_rs cfg complete now m content rcfg r cx.
+Proof. exact rs_session_late_join_general. Qed.
+Print Assumptions C16_session_late_join_general_rs.
+
+(* non-vacuity: the session of C01_session_example_rs as a carousel (EXT_FTI on the packets caught before the
+   instance): for every join offset TOI 7 ends in rv_completed and the log is the delivery - by computation (real XML
+   bytes through the oracle, XOR decoder) and by the theorem *)
+Example C16_session_example_rs :
+  forallb (fun j => match exsr_run (skipn j (exsr_wire false true) ++ exsr_pf :: exsr_wire false false) with
+                    | (_, [], [7], [], l) => list_eqb (fun a b => match a, b with
+                                                                 | EvWrite _ x _, EvWrite _ y _ => eqb_bytes x y
+                                                                 | EvBuilder _ _, EvBuilder _ _ | EvOpen _ _, EvOpen _ _
+                                                                 | EvComplete _, EvComplete _ => true
+                                                                 | _, _ => false end) l exs_log
+                    | _ => false end) [0; 1; 2; 3; 4; 5; 6]%nat = true.
+Proof. vm_compute. reflexivity. Qed.
+
+Example C16_session_example_rs_by_theorem : forall j closable fti,
+  let '(_, r, cx) := recv_run exsr_env fdt_oracle exs_rcfg recv0
+                       (map (fun p => RvPush p exs_nowr)
+                            (skipn j (obj_wire_rs xor_rep no_rsrc exs_cfg exsr_m 2 false true exr_content true)
+                             ++ sess_fdt_pkt exs_cfg false exs_now exsr_m 1 exs_sct
+                                :: obj_wire_rs xor_rep no_rsrc exs_cfg exsr_m 2 closable true exr_content fti)) ctx0 in
+  session_meta_delivered_rs exs_cfg false exs_now exsr_m exr_content exs_rcfg r cx.
+Proof. exact exsr_late_by_theorem. Qed.
+(* ===== end block: C01RS ===== *)
